@@ -368,7 +368,7 @@ ADDENDA = {
     "C03": "A quarter of the loads are preceded by a load of the same text "
            "through a differently configured parser (Decimal/Fraction reals, "
            "other quantity class, caller's containers, another dialect). "
-           "Text generator: exponents beyond the float range, zone offsets below one hour, words whose digits are not ASCII digits, words made of characters only Python takes for white space, keyword look-alikes as values and names; every fourth worker keeps one parser object per reader and feeds it truncated texts. Hand-written string contents with continuation marks, blanks and line breaks at the ends of the string (string_edges).",
+           "Text generator: exponents beyond the float range, zone offsets below one hour, words whose digits are not ASCII digits, words made of characters only Python takes for white space, keyword look-alikes as values and names; every fourth worker keeps one parser object per reader and feeds it truncated texts. Hand-written string contents with continuation marks, blanks and line breaks at the ends of the string (string_edges). Words that begin like a date or time and end like a zone offset (permissive readers).",
     "C04": "Which dialect a worker uses first differs from shard to shard. "
            "Also documents with missing values under the two permissive readers.",
     "C05": "For the ISIS reader also blocks begun with another dialect's "
@@ -403,7 +403,7 @@ ADDENDA = {
            "Labels handed over as bytes with data behind END and a disallowed multi-byte character at a read-block boundary; the character behind a dash continuation (default grammar, three routes). The last characters of a text without END.",
     "C16": "Also two user-subclass parser configurations and a family of "
            "modules around refusals raised part-way through a nested value. "
-           "One parser object per configuration fed 700 texts, six of seven failing inside a nested value (soak); every module an instance handed back is looked at again after every later call; wrap-hazard modules. Texts with dash continuations; modules with strings one or another encoder has no notation for.",
+           "One parser object per configuration fed 700 texts, six of seven failing inside a nested value (soak); every module an instance handed back is looked at again after every later call; wrap-hazard modules. Texts with dash continuations; modules with strings one or another encoder has no notation for. One module object written, edited in place and written again by the same encoder object.",
     "C17": "Also six encoders built with a grammar and a decoder of different "
            "dialects (writer law only), and a sample of the strings "
            "re-observed in a pristine process. "
